@@ -179,11 +179,23 @@ class Gen:
             return {"k": "const", "v": [copy.deepcopy(rng.choice(U.SCALARS)) for _ in range(n)]}
         if r < 0.75:
             return {"k": "opt", "key": "L", "dk": "const", "dv": [rng.choice(U.SCALARS) for _ in range(rng.choice([1, 2]))]}
-        if r < 0.9:
+        if r < 0.86:
             return {"k": "opt", "key": "L"}
+        if r < 0.93:
+            # a one-shot iterable (an Iter evaluates to a generator): every combination still sees each of its values
+            return {"k": "iter", "items": [{"k": "const", "v": rng.choice(U.SCALARS)} if rng.random() < 0.6 else
+                                           {"k": "opt", "key": rng.choice(U.TOP), "dk": "const", "dv": rng.choice(U.SCALARS)} for _ in range(rng.choice([1, 2, 2, 3]))]}
         # (values assigned to options by a Map must stay JSON: option dictionaries are JSON by definition and the
         #  fingerprint serialises them)
-        return {"k": "list", "items": [self.opt(0) if rng.random() < 0.6 else self.const() for _ in range(rng.choice([1, 2]))]}
+        #  (... and no whole sections: a section assigned to an option that a template reads mid-string is the brace
+        #  hazard of DESIGN section 5)
+        def element():
+            if rng.random() < 0.6:
+                e = self.opt(0)
+                return e if e["key"] not in ("S", "T") else self.opt(0, key=rng.choice(U.TOP + U.SECTION_KEYS))
+            return {"k": "const", "v": copy.deepcopy(rng.choice(U.VALUES))}  # (JSON: no tuple constants here)
+
+        return {"k": "list", "items": [element() for _ in range(rng.choice([1, 2]))]}
 
     def table(self, depth, n=None):
         rng = self.rng
